@@ -27,6 +27,17 @@ def load_unit(name):
 
 def run_vx(repo, unit, outdir, canary=False):
     items = unit["item"]
+    common = unit.get("skel_common")
+    if common:
+        merged_items = []
+        for it in items:
+            if "skel" in it:
+                sk = dict(common)
+                sk.update({k: v for k, v in it["skel"].items() if k != "prims"})
+                sk["prims"] = list(it["skel"].get("prims", [])) + list(common.get("prims", []))
+                it = dict(it, skel=sk)
+            merged_items.append(it)
+        items = merged_items
     if canary:
         items = [dict(it, canary=True) for it in items]
     job = {"repo": repo, "rewrite": unit.get("rewrite", {}), "items": items}
